@@ -475,12 +475,14 @@ class ObservedDecoder(R.Decoder):
   def __init__(self, quirks=frozenset()):
     super().__init__(lazy_depth="lazy-depth" in quirks)
     self.quirks = quirks
-    self.edm_no_pac = False
     self.overwrites = 0       # writes into occupied cells / PACs onto rows that already hold something
     self.switches = 0         # caption style changed while a memory still held something
-    self.first_switch = None
+    self.last_switch = None
     self.first_overwrite = None
     self.spacepairs = 0       # paint-on: character pairs that end with a space (and do not start with one)
+    self.fresh = True         # paint-on: no character yet since the last PAC / mid-row code
+    self.erased = False       # roll-up: EDM received and no RUx / PAC / character since
+    self.orphan = False       # roll-up: characters were written after an EDM without RUx / PAC
 
   def _put(self, cell):
     mem = self._memory()
@@ -490,25 +492,18 @@ class ObservedDecoder(R.Decoder):
     super()._put(cell)
 
   def feed(self, b1, b2):
-    if self.mode == "paint" and self.cc1 and (b1 & 0x7F) > 0x20 and ((b2 & 0x7F) == 0x20 or ((b2 & 0x7F) < 0x20 and False)):
-      self.spacepairs += 1
-    if "paint-space-pair-unstyled" not in self.quirks:
-      return super().feed(b1, b2)
-    # deviation: in paint-on mode a character pair that ends with a space, does not start with one and is the first pair after
-    # a PAC or a mid-row code is shown with default attributes
     c1, c2 = b1 & 0x7F, b2 & 0x7F
     pen = None
     if self.mode == "paint" and self.cc1 and c1 >= 0x20:
       last = c2 if c2 >= 0x20 else c1
-      if c1 == 0x20:
-        self.fresh = False
-      elif last == 0x20:
-        if getattr(self, "fresh", True):
+      if c1 != 0x20 and last == 0x20:
+        self.spacepairs += 1
+        if "paint-space-pair-unstyled" in self.quirks and self.fresh:
+          # deviation: in paint-on mode a character pair that ends with a space, does not start with one and is the first pair
+          # after a PAC or a mid-row code is shown with default attributes
           pen = (self.colors, self.italic, self.underline)
           self.colors, self.italic, self.underline = frozenset({"white"}), False, False
-        self.fresh = False
-      else:
-        self.fresh = False
+      self.fresh = False
     tag = super().feed(b1, b2)
     if pen is not None:
       self.colors, self.italic, self.underline = pen
@@ -516,12 +511,16 @@ class ObservedDecoder(R.Decoder):
       self.fresh = True
     elif tag in ("special", "extended"):
       self.fresh = False
+    if self.mode == "roll" and self.erased and tag in ("text", "special", "extended", "midrow"):
+      self.erased = False
+      self.orphan = True
     return tag
 
   def _pac(self, det):
     if self.mode in ("pop", "paint") and any(c is not None for c in self._memory()[det["row"]]):
       self.overwrites += 1
       self.first_overwrite = self.first_overwrite or self.mode
+    self.erased = False
     if self.mode == "roll":
       named = det["row"]
       if "roll-base-15" in self.quirks:
@@ -533,23 +532,27 @@ class ObservedDecoder(R.Decoder):
         self.row = self.base
         self.col = 0
         return "PAC"
-    self.edm_no_pac = False
     return super()._pac(det)
 
   def _control(self, name):
-    if "roll-row-after-edm-lost" in self.quirks and self.mode == "roll":
-      # deviation: a roll-up row written after an EDM without a PAC disappears at the next carriage return instead of rolling up
+    if self.mode == "roll":
       if name == "EDM":
-        self.edm_no_pac = True
-      elif name == "CR":
-        if self.edm_no_pac and any(c is not None for c in self.displayed[self.base]):
+        self.erased, self.orphan = True, False
+      elif name in ("RU2", "RU3", "RU4"):
+        self.erased = False
+      elif name == "CR" and self.orphan:
+        self.orphan = False
+        if "roll-row-after-edm-lost" in self.quirks:
+          # deviation: a roll-up row written after an EDM without a preceding RUx or PAC disappears at the next carriage return
+          # instead of rolling up
           self.displayed[self.base] = [None] * R.COLS
-          self.edm_no_pac = False
     if name in ("RCL", "RDC", "RU2", "RU3", "RU4"):
       new = {"RCL": "pop", "RDC": "paint"}.get(name, "roll")
       if self.mode not in (None, new) and any(c is not None for mem in (self.displayed, self.nondisplayed) for row in mem for c in row):
         self.switches += 1
-        self.first_switch = f"{self.mode}->{new}"      # (the latest one)
+        self.last_switch = f"{self.mode}->{new}"
+      if new != "roll":
+        self.erased = self.orphan = False
     return super()._control(name)
 
 
@@ -587,7 +590,7 @@ class RefRun:
         self.dups.append(dups)
         self.overwrites.append(dec.overwrites)
         if dec.switches != (self.switches[-1] if self.switches else 0):
-          self.switch_at.append((len(self.switches), dec.first_switch))
+          self.switch_at.append((len(self.switches), dec.last_switch))
         self.switches.append(dec.switches)
         self.spacepairs.append(dec.spacepairs)
         if dec.version != before:
@@ -986,6 +989,7 @@ def config_of(name):
 
 HYPOTHESES = ["lazy-depth", "dup", "edm", "cross", "roll-base-15", "relrows", "roll-pac-5-11", "paint-space-pair-unstyled", "roll-row-after-edm-lost"]
 QUIRKS = {"lazy-depth", "roll-base-15", "roll-pac-5-11", "paint-space-pair-unstyled", "roll-row-after-edm-lost"}
+GENERIC = {"cross", "relrows"}
 READINGS = [frozenset(), frozenset({"lazy-depth"})]      # accepted readings of the standard (never reported)
 HYP_TEXT = {
   "dup": ("time:early-after-doubled-code", C_TIME,
@@ -1006,7 +1010,7 @@ HYP_TEXT = {
                     "in roll-up mode the indent and the colour/italics/underline of a PAC for rows 5-11 are ignored (the document "
                     "conforms when such a PAC only selects the base row)"),
   "roll-row-after-edm-lost": ("roll-up:row-after-edm-without-pac-lost", C_TEXT,
-                              "a roll-up row written after an EDM without a PAC disappears at the next carriage return instead of rolling "
+                              "a roll-up row written after an EDM without a preceding RUx or PAC disappears at the next carriage return instead of rolling "
                               "up (the document conforms when that row is erased by the CR)"),
   "paint-space-pair-unstyled": ("paint-on:pair-ending-with-space-unstyled", C_TEXT,
                                 "in paint-on mode a character pair that ends with a space and directly follows a PAC or mid-row code "
@@ -1043,16 +1047,20 @@ class Judge:
     chosen = frozenset()
     m = self.first_mismatch(chosen, D)
     while m is not None:
-      rest = [h for h in HYPOTHESES if h not in chosen]
       best = None
-      for size in (1, 2):
-        for extra in itertools.combinations(rest, size):
-          m2 = self.first_mismatch(chosen | set(extra), D)
-          if m2 is None:
-            best = ((float("inf"), 0), extra, None)
+      # the specific deviations first; the permissive ones (any row offset, any look-ahead) only when nothing else helps
+      for pool in ([h for h in HYPOTHESES if h not in GENERIC], HYPOTHESES):
+        rest = [h for h in pool if h not in chosen]
+        for size in (1, 2):
+          for extra in itertools.combinations(rest, size):
+            m2 = self.first_mismatch(chosen | set(extra), D)
+            if m2 is None:
+              best = ((float("inf"), 0), extra, None)
+              break
+            if _progress(m2) > _progress(m) and (best is None or _progress(m2) > best[0]):
+              best = (_progress(m2), extra, m2)
+          if best is not None:
             break
-          if _progress(m2) > _progress(m) and (best is None or _progress(m2) > best[0]):
-            best = (_progress(m2), extra, m2)
         if best is not None:
           break
       if best is None:
@@ -1100,12 +1108,23 @@ def evaluate(text, cfg_name):
   if passing:
     D, chosen, _ = min(passing, key=lambda x: (len(x[1]), -x[0]))
     info["D"] = D
+    bref = judge.ref(frozenset(h for h in chosen if h in QUIRKS))
     for h in sorted(chosen):
       if h not in HYP_TEXT:
         continue
       key, contract, msg = HYP_TEXT[h]
       m = judge.first_mismatch(chosen - {h}, D)
       mode = str(m.mode)
+      if h in GENERIC and (bref.switches[-1] or bref.overwrites[-1]):
+        # the permissive descriptions say little in streams that change the caption style without erasing or write over existing
+        # text: name the situation instead
+        idx = max(m.index, 0)
+        if bref.switches[-1]:
+          before = [p for (i, p) in bref.switch_at if i <= idx]
+          key = f"style-switch-without-erase:{before[-1] if before else bref.switch_at[0][1]}"
+        else:
+          key = f"overwrite:{bref.first_overwrite}:layout"
+        msg = "(stream that changes the caption style without erasing / writes over existing text) " + msg
       fails.append((key.format(mode=mode), contract, msg.format(mode=mode) + f"; first difference at frame {m.frame}: document "
                     f"{show_doc(m.doc_rows)}, reference {show_ref(m.ref_rows)}",
                     {"frame": m.frame, "document": show_doc(m.doc_rows)}, {"frame": m.frame, "reference": show_ref(m.ref_rows)}))
@@ -1166,14 +1185,14 @@ def main():
   args = parse_args()
   quick = args.tier == "quick"
   logging.disable(logging.CRITICAL)
-  per_family = 1600 if quick else 40000
+  per_family = 2000 if quick else 24000
   rec = Recorder("C08", "one evaluation of each contract per generated SCC stream x text_align configuration; every frame from the "
                  "first word to the last is compared; a case is non-trivial when the displayed memory changes at "
                  "least once and is distinct by (SCC text, configuration)",
                  {"captions_per_stream": 3 if quick else 8, "streams_per_family": per_family, "families": FAMILIES,
                   "configurations": [str(c) for c in CONFIGS]})
   jobs = []
-  chunk = per_family // 8
+  chunk = per_family // 16
   for fam in FAMILIES:
     for lo in range(0, per_family, chunk):
       jobs.append((args.seed, args.tier, fam, lo, min(per_family, lo + chunk)))
